@@ -56,7 +56,7 @@ def run(ctx):
     want = [("lit", '{"key": "'), ("arg", 0), ("lit", '", "share": "'), ("arg", 1), ("lit", '", "tag": "'), ("arg", 2), ("lit", '"}')]
     ctx.add("C17.R1", root + "#json-template", pieces == want,
             "the JSON template must be {\"key\": \"<0>\", \"share\": \"<1>\", \"tag\": \"<2>\"}; decoded %s" % pieces, at, sample=pieces)
-    sw = [e for e in Q.calls(eng, "MessageGenerator::share_with_local_randomness") if e["frame"] == fr.key]
+    sw = [e for e in Q.calls(eng, "MessageGenerator::share_with_local_randomness") if e["home"] == fr.key]
     mat = None
     if len(sw) == 1:
         okv = ok_variant(sw[0]["result"], 0)
@@ -66,7 +66,7 @@ def run(ctx):
         ctx.add("C17.R1", root + "#material", False, "no sharing material / three format arguments found", at)
     else:
         key, share, tag = (mat.args[1 + fidx(ctx, W, n)] for n in ("key", "share", "tag"))
-        tb_ev = [e for e in Q.calls(eng, "sta_rs::Share::to_bytes") if e["frame"] == fr.key]
+        tb_ev = [e for e in Q.calls(eng, "sta_rs::Share::to_bytes") if e["home"] == fr.key]
         share_bytes = tb_ev[0]["result"] if tb_ev else None
         wants = [("key", key), ("share", share_bytes), ("tag", tag)]
         for i, (nm, wv) in enumerate(wants):
@@ -81,7 +81,7 @@ def run(ctx):
     ctx.floor("C17.R1", 5)
 
     # ---- R2 delegation (create) ------------------------------------------------------------------------------
-    mg = [e for e in Q.calls(eng, "sta_rs::MessageGenerator::new") if e["frame"] == fr.key]
+    mg = [e for e in Q.calls(eng, "sta_rs::MessageGenerator::new") if e["home"] == fr.key]
     okd = len(mg) == 1 and len(sw) == 1
     det = ""
     if okd:
@@ -101,8 +101,8 @@ def run(ctx):
     at = ctx.fn(root).loc
     some = Q.variant(ret, 1)
     fs = Q.facts_of_variant(eng, ret, 1) or set()
-    sr = [e for e in Q.calls(eng, "sta_rs::share_recover") if e["frame"] == fr.key]
-    dk = [e for e in Q.calls(eng, "sta_rs::derive_ske_key") if e["frame"] == fr.key]
+    sr = [e for e in Q.calls(eng, "sta_rs::share_recover") if e["home"] == fr.key]
+    dk = [e for e in Q.calls(eng, "sta_rs::derive_ske_key") if e["home"] == fr.key]
     okg = len(sr) == 1 and len(dk) == 1 and some is not None
     det = ""
     if okg:
@@ -150,7 +150,7 @@ def run(ctx):
     okc = any(t.op == "b64_valid" and rel == "eq" and v == 1 for t, rel, v in fs)
     if not okc:
         # loop form: every stored share was decoded from a valid chunk, and an invalid chunk returns None
-        pushes = [e for e in Q.calls(eng, "::push") if e["frame"] == fr.key]
+        pushes = [e for e in Q.calls(eng, "::push") if e["home"] == fr.key]
         okpush = bool(pushes) and all(any(t.op == "b64_valid" and rel == "eq" and v == 1 for t, rel, v in Q.closure(eng, eng.facts_at(e["frame"], e["block"])))
                                       for e in pushes)
         none = Q.variant(ret, 0)
